@@ -9,8 +9,11 @@ B2  the libraries TLC enumerated are concretised on fixed real paths (thresholds
     minus the model's margin, "outside the table" = a CD table ending below the path's CD, "does not fit" =
     min_spacing above the request's spacing) and run through the real compute_path_with_disjunction; the observed
     outcome must be a member of the set of acceptable outcomes the specification emitted.
-B3  (primary) on paths of meshTopologyExampleV2 and the Sweden OpenROADM networks the driver measures the metrics,
-    constructs libraries whose thresholds / penalty tables / min_spacing / offsets straddle them, runs the real
+B3  (primary) on paths of meshTopologyExampleV2, the Sweden OpenROADM networks and a synthetic 3-ROADM line (fibres
+    with a dispersion slope, longer in one direction, one hop over-compensated so that the residual CD is negative)
+    the driver measures the metrics of BOTH directions per channel, constructs libraries whose thresholds / penalty
+    tables (upper and lower end inside or beside the measured per-channel CD, steep tables, loader-inserted 0
+    boundary) / min_spacing / offsets straddle them, runs the real
     compute_path_with_disjunction with and without a fixed mode, bidirectional or not, records every recomputation of
     the receiver figures, and Trace_Feasibility judges verdict, selection, composition law, penalty law and
     independence from the exploration history against the per-mode pristine figures.
@@ -37,7 +40,7 @@ WITNESSES = ['WitnessManyUpdates', 'WitnessReverseBlocks', 'WitnessUnjudgedPick'
 
 TIER = {
     # b2: (# two-mode libraries sampled, # three-mode libraries sampled, paths); b3: scenarios per pair, pairs
-    'quick': dict(b2_two=260, b2_three=420, b2_paths=1, b3_per_pair=24, b3_pairs='quick'),
+    'quick': dict(b2_two=230, b2_three=330, b2_paths=1, b3_per_pair=24, b3_pairs='quick'),
     'thorough': dict(b2_two=1176, b2_three=5000, b2_paths=3, b3_per_pair=70, b3_pairs='thorough'),
 }
 
@@ -217,9 +220,12 @@ def measured_tables(meas):
     rlo, rhi = meas['r']
     t = {}
     t['steep'] = [(lo - 2000, 0.0), (lo, 0.2), (max(hi + 1, lo + 400), 2.2), (hi + 30000, 3.2)]
-    end_hi = int(rlo + 0.6 * (rhi - rlo))                  # upper end inside the reverse spread
+    flo, fhi = meas['f']
+    # upper end inside the reverse spread; above every forward channel when the directions are asymmetric enough
+    end_hi = int((fhi + rhi) / 2) if rhi > fhi + 10 else int(rlo + 0.6 * (rhi - rlo))
     t['partial_hi'] = [(end_hi - 3000, 0.1), (end_hi - 1500, 0.3), (end_hi, 0.5)]
-    end_lo = int(rlo + 0.4 * (rhi - rlo))                  # lower end inside the reverse spread
+    # lower end inside the reverse spread; below every forward channel when the directions are asymmetric enough
+    end_lo = int((flo + rlo) / 2) if rlo < flo - 10 else int(rlo + 0.4 * (rhi - rlo))
     t['partial_lo'] = [(end_lo, 0.3), (end_lo + 2500, 0.0), (end_lo + 30000, 1.0)]
     t['low_in'] = [(lo - 5000, 0.4), (lo + 40000, 1.0)]    # lower boundary below the path: finite penalty
     t['low_out'] = [(hi + 500, 0.2), (hi + 30000, 1.0)]    # lower boundary above the path (unless the loader adds 0)
@@ -293,7 +299,11 @@ def place_thresholds(bench, src, dst, spacing, lib, deltas, margin, reference):
                     elif reference == 'fwdpass':
                         d = 0.3
                 elif reference == 'fwdpass' and np.isfinite(wf):
-                    d = 0.3
+                    # the reverse worst channel is outside a table: both directions clear the threshold by 0.3 dB as
+                    # far as the channels inside the table are concerned
+                    net = r['rx'] - r['tot']
+                    inside = net[np.isfinite(net)]
+                    w, d = (min(wf, float(np.min(inside))) if inside.size else wf), 0.3
             m['OSNR'] = round(w - d - margin, 4)
         else:
             m['OSNR'] = 15.0
@@ -427,7 +437,7 @@ def build_b3(chk, benches):
             bidir = rng.random() < 0.45
             reference = rng.choice(['fwd', 'rev', 'between', 'fwdpass']) if bidir else 'fwd'
             if p_bidir is not None:
-                fixed = (rng.choice(fitting) if p_fixed and fitting else 0)
+                fixed = (fitting[0] if p_fixed and fitting else 0)         # the largest mode carries the special table
                 bidir, reference = p_bidir, p_ref
                 if pattern in (0, 2):
                     deltas = [rng.choice(DELTAS) for _ in range(n)]
@@ -452,10 +462,13 @@ def _judge_batch(batch):
                    workers=4, timeout=1800, tag='c13-trace', heap='6g')
 
 
-def judge_b3(chk, traces, meta):
-    batches = [traces[k:k + 300] for k in range(0, len(traces), 300)]
-    with cf.ThreadPoolExecutor(max_workers=3) as pool:
-        results = list(pool.map(_judge_batch, batches))
+def start_judging(pool, traces):
+    """TLC judges the recorded traces (batches of 300) while Python replays the B2 cases"""
+    return [pool.submit(_judge_batch, traces[k:k + 300]) for k in range(0, len(traces), 300)]
+
+
+def judge_b3(chk, traces, meta, futures):
+    results = [f.result() for f in futures]
     emitted = []
     wall = 0.0
     for res in results:
@@ -531,8 +544,10 @@ def run(chk):
         benches = make_benches(chk.tier)
         traces, meta, acc = build_b3(chk, benches)
         emitted = finish_b1(chk, jobs)
-    run_b2(chk, emitted, benches)
-    ok = judge_b3(chk, traces, meta)
+        with cf.ThreadPoolExecutor(max_workers=3) as tpool:
+            futures = start_judging(tpool, traces)
+            run_b2(chk, emitted, benches)
+            ok = judge_b3(chk, traces, meta, futures)
     chk.traces += ok
     chk.cov['b3_traces'] = len(traces)
     chk.cov['b3_receiver_evaluations'] = sum(len(t['ev']) for t in traces)
